@@ -1444,7 +1444,10 @@ int EGLPNUM_TYPENAME_ILLbasis_factor (
 				lindex = singc[i];
 				ltype = lp->vtype[lp->baz[lindex]];
 
-				if (ltype == VBOUNDED || ltype == VLOWER || ltype == VARTIFICIAL)
+				/* a fixed variable leaves at its (lower = upper) bound as well: only
+				 * a free variable may become non-basic at zero */
+				if (ltype == VBOUNDED || ltype == VLOWER || ltype == VARTIFICIAL ||
+						ltype == VFIXED)
 					lvstat = STAT_LOWER;
 				else if (ltype == VUPPER)
 					lvstat = STAT_UPPER;
